@@ -28,8 +28,8 @@ LEVEL_TEXT = (
     'build_ranges, get_cell_value) / xltypes.py / utils.py: load_cells (the key set = stored cells of the '
     'sheets not ignored + blank placeholders for members of referenced areas), load_content / '
     'load_refines_spec (constant or formula text + cached result per storage form = Spec), shared_expands, '
-    'names_bound and names_bound_spec_partial (binding = Spec, apostrophes in sheet names included), '
-    'cached_before_eval, ignored_sheets_contribute_nothing, address injectivity, load_total_partial. The '
+    'names_bound and names_bound_spec_partial (binding = Spec; apostrophes, "$" and "!" in sheet names '
+    'included), cached_before_eval, ignored_sheets_contribute_nothing, address injectivity, load_total. The '
     'model is tied to the running code by loading real .xlsx packages written from raw XML (every storage '
     'form, every subset of ignored sheets) and comparing all four dicts of the model; the clause "evaluates '
     'like a model built from the same contents" is checked code against code and against values computed '
@@ -39,10 +39,10 @@ LEVEL_NOTE = (
     'form, the shared-formula translator, range_boundaries, the SHEET_TITLE regex and the tokenizer\'s area '
     'operands are hand-modelled (tied by the correspondence on generated workbooks only), not verified. '
     'The evaluation clause (load = dict) is not a theorem; it is tested. Partial: names_bound_spec_partial '
-    '(guard: sheet name without "$", "!", ":", edge blanks or a leading apostrophe) and load_total_partial '
-    '(guard: no "!" in a loaded sheet name, finding D1102); kernel-checked counter-examples to the full '
-    'statements are in Props/C11.lean. D1101 (apostrophe in the sheet name of a name target) is repaired in '
-    '/repo and is an ordinary violation if it returns.')
+    '(guard: sheet name without ":", ",", edge blanks or a leading apostrophe; kernel-checked counter-example '
+    'for an edge blank in Props/C11.lean). load_total has no guard on sheet names; its only hypothesis excludes '
+    'area names with reversed corners. D1101, D1102 (this property) and D0301, D0302 are repaired in /repo and '
+    'are ordinary violations if they return; regression workbooks are in corpus/C11.')
 DESIGN_REF = '§4 C11'
 
 TRUSTED = [
@@ -67,12 +67,11 @@ ASSUMPTIONS = [
     'ignored sheet) and hidden names are outside the statement',
     'date-styled numbers are serials >= 61 in the 1900 system with a time part that is a multiple of 1/8 day',
     'an empty <v/> with t="str" or t="e" (read as "no value" by openpyxl) is not generated',
-    'blank placeholder cells that build_ranges adds for members of referenced areas are allowed by the '
-    'statement (they hold no content of any stored cell)',
-    'sheet names contain no "$", no "," and no blank at either end (observed while building the check, not '
-    'modelled: "$" in a sheet name is stripped from references and name targets, a "," splits area references '
-    'at the comma, edge blanks are stripped by resolve_sheet — all three make references into such sheets read '
-    'blank); formulas use upper-case references and no whole-row/column areas',
+    'placeholder cells that build_ranges adds for members of referenced areas are allowed by the statement as '
+    'long as they are empty (no value, no formula)',
+    'sheet names contain no "," and no blank at either end (observed while building the check, not modelled: a '
+    '"," splits area references at the comma, edge blanks are stripped by resolve_sheet — both make references '
+    'into such sheets read blank); formulas use upper-case references and no whole-row/column areas',
     'the spelling of XLRange.address_str, model.formulae, model.ranges, the back-links XLCell.defined_names and '
     'the placeholders are compared with the Lean model only (differences are reported as model drift)',
 ]
@@ -512,8 +511,6 @@ class OwnEval:
         tg = self.names.get(n)
         if tg is None:
             return False
-        if '!' in tg[1] or '$' in tg[1]:
-            return False
         if len(tg) > 7:
             return True
         return ('%s!%s%d' % (tg[1], col_name(tg[4]), tg[6])) in self.content
@@ -581,7 +578,9 @@ class OwnEval:
     def cell_value(self, a):
         """value of a single reference: only numeric constants and computable formulas are known."""
         kind = self.content.get(a)
-        if kind is None or kind[0] == 'other':
+        if kind is None:
+            return Fraction(0)          # not stored, or an empty placeholder: blank
+        if kind[0] == 'other':
             raise Unknown()
         if kind[0] == 'num':
             return kind[1]
@@ -755,7 +754,7 @@ class _Parser:
 PLAIN_SHEETS = ['Sheet1', 'Data', 'S2', 'Calc', 'Totals']
 QUOTED_SHEETS = ['My Sheet', 'Q1 2024', 'A-B', 'Été', '2024', 'x (1)', 'a&b', 'Sheet 2']
 APOS_SHEETS = ["It's", "O'Neil x", "a''b"]
-BANG_SHEETS = ['A!B']
+SPECIAL_SHEETS = ['A!B', 'US$', 'Cost$ 1', 'x!y z', "it's $!", '$A$1']       # '!' and '$' (D1102, D0302 fixed)
 TEXTS = ['x', 'hello world', ' lead', 'trail ', 'a<b&c>d', '"q"', "it's", 'Ünï', '1.5', 'TRUE', '#N/A', 'A1',
          'line1 line2', '  ', '日本']
 ERRORS = ['#DIV/0!', '#N/A', '#VALUE!', '#REF!', '#NAME?', '#NUM!', '#NULL!']
@@ -839,12 +838,12 @@ class Gen:
             k = rng.random()
             if k < 0.45:
                 pool.append(rng.choice(PLAIN_SHEETS))
-            elif k < 0.93:
+            elif k < 0.80:
                 pool.append(rng.choice(QUOTED_SHEETS))
-            elif k < 0.992:
+            elif k < 0.88:
                 pool.append(rng.choice(APOS_SHEETS))
             else:
-                pool.append(rng.choice(BANG_SHEETS))
+                pool.append(rng.choice(SPECIAL_SHEETS))
         names = []
         for p in pool:
             while p in names:
@@ -979,7 +978,7 @@ class Gen:
             sheet_cells[sn] = kinds
             numeric[sn] = [p for p, k in kinds.items() if k in ('num', 'formula')]
         for sn in names_of_sheets:
-            others = [o for o in names_of_sheets if o != sn and '!' not in o]
+            others = [o for o in names_of_sheets if o != sn]
             kinds = sheet_cells[sn]
             out = {}
             # shared groups: a master and members to the right / below / below-left of it
@@ -1036,7 +1035,7 @@ class Gen:
                 if c['f'] is None:
                     continue
                 a = '%s!%s%d' % (s['name'], col_name(c['col']), c['row'])
-                v = ev.expected(a) if '!' not in s['name'] else None
+                v = ev.expected(a)
                 k = rng.random()
                 if v is not None and k < 0.6:
                     c['st'] = ['I', int(v)] if v.denominator == 1 and rng.random() < 0.8 else ['F', str(v + 0)]
@@ -1069,7 +1068,7 @@ def _c(col, row, f=None, st=None):
 
 
 def fixed_workbooks():
-    """Regression workbooks: the witnesses of D5, D7, D9, D53, D54, D1101 (fixed) and of D1102 (known)."""
+    """Regression workbooks: the witnesses of D5, D7, D9, D53, D54, D1101, D1102, D0302 (all fixed)."""
     out = []
     # D9: a defined name whose sheet is quoted; D5: $-absolute references; D7: SUM over a range name
     out.append(('D9-D5-D7', {
@@ -1120,12 +1119,21 @@ def fixed_workbooks():
                    {'name': 'S2', 'cells': [_c(1, 1, ['P', [pfx_for("It's"), CELL(1, 1), L('+'), L('1')]], ['I', 9])]}],
         'names': [{'name': 'ap', 'hidden': False, 'target': ['T', "It's", True, True, 1, True, 1]},
                   {'name': 'apr', 'hidden': False, 'target': ['T', "It's", True, True, 1, True, 1, True, 1, True, 2]}]}))
-    # D1102: '!' in a sheet name
-    out.append(('D1102', {
-        'sst': [],
-        'sheets': [{'name': 'A!B', 'cells': [_c(1, 1, None, ['I', 8])]},
-                   {'name': 'S2', 'cells': [_c(1, 1, None, ['I', 1])]}],
-        'names': []}))
+    # D1102 (fixed): '!' in a sheet name; D0302 (fixed): '$' in a sheet name (both also in corpus/C11)
+    for label, sn in (('D1102', 'A!B'), ('D0302', 'US$')):
+        out.append((label, {
+            'sst': [],
+            'sheets': [{'name': sn, 'cells': [_c(1, 1, None, ['I', 8]), _c(1, 2, None, ['I', 2]),
+                                              _c(2, 1, ['P', [CELL(1, 1, True, True), L('+'), CELL(1, 2)]], ['I', 10]),
+                                              _c(2, 2, ['M', 0, [L('SUM'), L('('), CELL(1, 1, True, False), L(':'),
+                                                                 CELL(1, 2), L(')')]], ['I', 10]),
+                                              _c(2, 3, ['S', 0], ['I', 2])]},
+                       {'name': 'S2', 'cells': [_c(1, 1, ['P', [pfx_for(sn), CELL(1, 1), L('+'), ['N', 'nc'], L('+'),
+                                                                L('SUM'), L('('), ['N', 'nr'], L(')')]], ['I', 26]),
+                                                _c(1, 2, ['P', [L('SUM'), L('('), pfx_for(sn), CELL(1, 1), L(':'),
+                                                                CELL(1, 3), L(')')]], ['I', 10])]}],
+            'names': [{'name': 'nc', 'hidden': False, 'target': ['T', sn, True, True, 1, True, 1]},
+                      {'name': 'nr', 'hidden': False, 'target': ['T', sn, True, True, 1, True, 1, True, 1, True, 2]}]}))
     return out
 
 
@@ -1170,7 +1178,6 @@ class Checker:
         inp = {'workbook': wb, 'ignore': ig}
         issues = []          # (what, expected, got, finding-id or None)
         sheets = {s['name']: s for s in wb['sheets']}
-        bang = [s['name'] for s in wb['sheets'] if '!' in s['name']]
         model, exc = load_real(path, ig)
         nontriv = ('%d sheets|%d ignored|forms:%s|names:%s' % (
             len(wb['sheets']), len(ig),
@@ -1182,7 +1189,7 @@ class Checker:
         res.count('ignored:%d' % len(ig))
         if model is None:
             res.count('outcome:load-raised')
-            issues.append(('loading raised %s' % exc, 'a model', 'X:' + exc, 'D1102' if bang else None))
+            issues.append(('loading raised %s' % exc, 'a model', 'X:' + exc, None))
             real = {'crash': exc}
         else:
             res.count('outcome:loaded')
@@ -1198,9 +1205,7 @@ class Checker:
                 fid = issue[3]
                 if fid is None or fid not in self.listed:
                     return False
-                if fid == 'D1102':
-                    return 'crash' in impl and 'crash' in real and impl['crash'] == real['crash']
-                return False
+                return False          # no finding is listed as known for C11 at present
             if all(as_modelled(i) for i in issues):
                 for fid in {i[3] for i in issues}:
                     res.known.setdefault(fid, []).append({'ignore': ig, 'label': label})
@@ -1260,7 +1265,7 @@ class Checker:
         for k, got in real['cells'].items():
             if k in speckeys:
                 continue
-            if not (got[1] in (('T', ''), ('Z',)) and got[2] is None):
+            if not (got[1] == ('Z',) and got[2] is None):
                 sheet = k.rsplit('!', 1)[0]
                 what = ('ignored sheet contributes cell %s' % k) if sheet in ig else \
                     ('cell %s is not stored in the workbook' % k)
@@ -1357,7 +1362,7 @@ class Checker:
             exp_own = own.expected(a)
             if exp_own is not None:
                 res.count('evaluated-vs-own-value')
-                w = common.num_value(got)
+                w = Fraction(0) if got == 'Z' else common.num_value(got)      # a lone reference to a blank is BLANK
                 if w is None or w != exp_own:
                     v = {'what': 'cell %s of the loaded model evaluates to the wrong value' % a,
                          'input': inp, 'expected': str(exp_own), 'got': got}
@@ -1470,7 +1475,7 @@ def run(ctx):
     warnings.simplefilter('ignore')
     res = Result()
     res.rule = ('real .xlsx packages written from raw XML: 1-4 sheets (plain names, names needing quotes, with '
-                'apostrophes, with "!"), 2-5 x 2-6 grids with every storage form (n int/float, s, str, inlineStr, '
+                'apostrophes, with "!" and "$"), 2-5 x 2-6 grids with every storage form (n int/float, s, str, inlineStr, '
                 'b, e, date-styled, empty; formulas with every kind of cached result or none; shared masters with '
                 'members in rows, columns, rectangles and scattered, mixed $ references, cross-sheet references, '
                 'reference-like text literals), 0-4 defined names (cells, ranges, $/no $, quoted sheets, hidden, '
